@@ -33,6 +33,7 @@ import (
 type nctx struct {
 	funcs    map[string]*ast.FuncDecl // "Recv.Name" and "Name" -> declaration
 	noInline map[string]bool          // callees never expanded (by function name)
+	expanded map[*ast.FuncDecl]bool   // helpers expanded by the enumerations run on this context
 }
 
 // without returns a copy of the context that does not expand calls of the named functions.
@@ -75,6 +76,7 @@ type nframe struct {
 	subst  map[string]string   // identifier -> replacement text (parameters, receiver, loop variables)
 	defs   map[string]ast.Expr // single-definition locals
 	multi  map[string]string   // multi-definition locals -> $n
+	ptr    map[string]bool     // pointer parameters bound to &x: *p is x
 	retTo  []ast.Expr          // inlined call: assignment targets of the call's results (nil: results dropped)
 	retTok token.Token
 	tail   bool // inlined call in return position: the helper's returns are the caller's
@@ -149,6 +151,20 @@ func propagateAll(in []bpath) []bpath {
 	for _, p := range in {
 		q := propagate(p)
 		feasible := true
+		// facts decided by their own text: nil compared with nil, a freshly built error compared with nil
+		var kept bpath
+		for _, e := range q {
+			if e.Kind == "+" {
+				if known, val := selfDecided(e.Text); known {
+					if !val {
+						feasible = false
+					}
+					continue
+				}
+			}
+			kept = append(kept, e)
+		}
+		q = kept
 		for i, e := range q {
 			if e.Kind != "+" {
 				continue
@@ -185,6 +201,69 @@ func propagateAll(in []bpath) []bpath {
 		}
 	}
 	return out
+}
+
+// wholeCall: the text is one call expression f(...) and nothing after it.
+func wholeCall(s string) bool {
+	i := strings.Index(s, "(")
+	if i < 0 || !strings.HasSuffix(s, ")") {
+		return false
+	}
+	depth := 0
+	inStr := byte(0)
+	for j := i; j < len(s); j++ {
+		ch := s[j]
+		if inStr != 0 {
+			if ch == '\\' && inStr == '"' {
+				j++
+			} else if ch == inStr {
+				inStr = 0
+			}
+			continue
+		}
+		switch ch {
+		case '"', '`':
+			inStr = ch
+		case '(':
+			depth++
+		case ')':
+			depth--
+			if depth == 0 {
+				return j == len(s)-1
+			}
+		}
+	}
+	return false
+}
+
+// selfDecided: a fact whose truth does not depend on the program state.
+func selfDecided(f string) (known, val bool) {
+	switch f {
+	case "true", "!false":
+		return true, true
+	case "false", "!true":
+		return true, false
+	}
+	for _, op := range []string{"==", "!="} {
+		i := indexTop(f, op)
+		if i <= 0 || indexTop(f, "&&") >= 0 || indexTop(f, "||") >= 0 {
+			continue
+		}
+		l, r := f[:i], f[i+2:]
+		if r != "nil" {
+			l, r = r, l
+		}
+		if r != "nil" {
+			continue
+		}
+		switch {
+		case l == "nil":
+			return true, op == "=="
+		case (strings.HasPrefix(l, "fmt.Errorf(") || strings.HasPrefix(l, "errors.New(")) && wholeCall(l):
+			return true, op == "!="
+		}
+	}
+	return false, false
 }
 
 var dollarRe = regexp.MustCompile(`\$[0-9]+`)
@@ -733,6 +812,9 @@ func (e *nenum) renderD(fr *nframe, x ast.Expr, depth int) string {
 		}
 		return e.renderD(fr, v.X, depth) + ".(" + nospaceLit(v.Type) + ")"
 	case *ast.StarExpr:
+		if id, ok := v.X.(*ast.Ident); ok && fr.ptr[id.Name] {
+			return e.renderD(fr, v.X, depth)
+		}
 		return "*" + e.renderD(fr, v.X, depth)
 	case *ast.UnaryExpr:
 		return v.Op.String() + e.renderD(fr, v.X, depth)
@@ -938,6 +1020,7 @@ func (e *nenum) helperOf(fr *nframe, ce *ast.CallExpr) *ast.FuncDecl {
 // inline expands a helper call: results go to retTo (nil: dropped) or, for tail, become the caller's return.
 func (e *nenum) inline(fr *nframe, ce *ast.CallExpr, d *ast.FuncDecl, retTo []ast.Expr, tok token.Token, tail bool) {
 	subst := map[string]string{}
+	ptr := map[string]bool{}
 	i := 0
 	if d.Type.Params != nil {
 		for _, f := range d.Type.Params.List {
@@ -953,6 +1036,7 @@ func (e *nenum) inline(fr *nframe, ce *ast.CallExpr, d *ast.FuncDecl, retTo []as
 				if ue, ok := a.(*ast.UnaryExpr); ok && ue.Op == token.AND {
 					if _, isPtr := f.Type.(*ast.StarExpr); isPtr {
 						s = e.render(fr, ue.X)
+						ptr[nm.Name] = true
 					}
 				}
 				subst[nm.Name] = s
@@ -966,9 +1050,13 @@ func (e *nenum) inline(fr *nframe, ce *ast.CallExpr, d *ast.FuncDecl, retTo []as
 		}
 	}
 	nf := e.newFrame(d, fr, subst)
+	nf.ptr = ptr
 	nf.retTo, nf.retTok, nf.tail = retTo, tok, tail
 	// loop variables of the caller stay visible through the substituted argument texts only
 	e.inlining[d] = true
+	if e.c.expanded != nil {
+		e.c.expanded[d] = true
+	}
 	saveSw, saveSwD := e.swLevel, e.swDepth
 	e.swLevel, e.swDepth = 0, nil
 	e.stmts(nf, d.Body.List)
@@ -979,6 +1067,67 @@ func (e *nenum) inline(fr *nframe, ce *ast.CallExpr, d *ast.FuncDecl, retTo []as
 			e.cur[k].ret = 0
 		}
 	}
+}
+
+// hoistArgs evaluates, ahead of a call in statement position, the arguments that are calls of package helpers with
+// a body of their own (more than a single return): the helper is expanded with its result in a fresh local, and the
+// call is rendered with that local. `f(a, listText(xs))` and `t := listText(xs); f(a, t)` read the same.
+func (e *nenum) hoistArgs(fr *nframe, ce *ast.CallExpr) *ast.CallExpr {
+	var out *ast.CallExpr
+	for i, a := range ce.Args {
+		ac, ok := stripParens(a).(*ast.CallExpr)
+		if !ok {
+			continue
+		}
+		d := e.helperOf(fr, ac)
+		if d == nil || d.Type.Results == nil || len(d.Type.Results.List) != 1 || len(d.Type.Results.List[0].Names) > 1 || len(d.Body.List) < 2 {
+			continue
+		}
+		if out == nil {
+			cp := *ce
+			cp.Args = append([]ast.Expr{}, ce.Args...)
+			out = &cp
+		}
+		*e.counter++
+		name := fmt.Sprintf("hoisted%d", *e.counter)
+		id := ast.NewIdent(name)
+		fr.multi[name] = fmt.Sprintf("$%d", *e.counter)
+		e.inline(fr, e.hoistArgs(fr, ac), d, []ast.Expr{id}, token.ASSIGN, false)
+		out.Args[i] = id
+	}
+	if out == nil {
+		return ce
+	}
+	return out
+}
+
+// hoistCond: a condition that is (the negation of) a call of a package helper with a body of its own is decided by
+// expanding the helper first: `if changed(x) {` reads like `c := changed(x); if c {`.
+func (e *nenum) hoistCond(fr *nframe, cond ast.Expr) ast.Expr {
+	switch c := cond.(type) {
+	case *ast.ParenExpr:
+		if h := e.hoistCond(fr, c.X); h != c.X {
+			return h
+		}
+	case *ast.UnaryExpr:
+		if c.Op == token.NOT {
+			if h := e.hoistCond(fr, c.X); h != c.X {
+				return &ast.UnaryExpr{Op: token.NOT, X: h, OpPos: c.OpPos}
+			}
+		}
+	case *ast.CallExpr:
+		d := e.helperOf(fr, c)
+		if d == nil || d.Type.Results == nil || len(d.Type.Results.List) != 1 || len(d.Type.Results.List[0].Names) > 1 || len(d.Body.List) < 2 {
+			return cond
+		}
+		*e.counter++
+		name := fmt.Sprintf("hoisted%d", *e.counter)
+		id := ast.NewIdent(name)
+		fr.multi[name] = fmt.Sprintf("$%d", *e.counter)
+		e.inline(fr, e.hoistArgs(fr, c), d, []ast.Expr{id}, token.ASSIGN, false)
+		return id
+	}
+	return cond
 }
 
 func (e *nenum) stmts(fr *nframe, list []ast.Stmt) {
@@ -1065,6 +1214,8 @@ func (e *nenum) stmt(fr *nframe, s ast.Stmt) {
 				e.inline(fr, ce, d, nil, token.ILLEGAL, false)
 				return
 			}
+			e.calls(fr, e.hoistArgs(fr, ce))
+			return
 		}
 		e.calls(fr, x.X)
 	case *ast.AssignStmt:
@@ -1076,7 +1227,14 @@ func (e *nenum) stmt(fr *nframe, s ast.Stmt) {
 					for _, l := range x.Lhs {
 						if id, ok := l.(*ast.Ident); ok {
 							if _, single := fr.defs[id.Name]; single {
-								inlinable = false
+								if len(d.Body.List) > 1 {
+									// a helper with a body of its own: its result is a value computed here, not a text to repeat
+									delete(fr.defs, id.Name)
+									*e.counter++
+									fr.multi[id.Name] = fmt.Sprintf("$%d", *e.counter)
+								} else {
+									inlinable = false
+								}
 							}
 						}
 					}
@@ -1197,6 +1355,11 @@ func (e *nenum) stmt(fr *nframe, s ast.Stmt) {
 		}
 	case *ast.IfStmt:
 		e.stmt(fr, x.Init)
+		if hc := e.hoistCond(fr, x.Cond); hc != x.Cond {
+			cp := *x
+			cp.Init, cp.Cond = nil, hc
+			x = &cp
+		}
 		e.calls(fr, x.Cond)
 		before := e.cur
 		e.cur = e.clone(before)
